@@ -9,7 +9,7 @@ PLAIN = ["A", "B", "C", "D", "E", "F", "G", "H"]
 
 W_INT = [1, 1, 1, 2, 2, 3, 4, 5, 7]
 W_BIG = [1, 10, 99, 100, 101, 1000, 12345]
-W_RAT = [F(1), F(2), F(3), F(1, 2), F(1, 3), F(7, 3), F(10, 7), F(5, 2), F(3, 4)]
+W_RAT = [F(1), F(2), F(3), F(1, 2), F(1, 3), F(7, 3), F(10, 7), F(5, 2), F(3, 4), F(1, 997), F(3, 1009), F(5, 7919)]
 
 HOSTILE = ["bullet", "same", "zero", "tie_top", "tie_bottom", "tie_boundary", "quota", "overquota",
            "exhaust", "single", "full", "cycle", "coalition", "dup"]
